@@ -1,14 +1,14 @@
 SPECIFICATION Spec
 CONSTANTS
-  MaxB = 4
+  MaxB = 2
   NPs = {1}
-  MaxPost = 1
+  MaxPost = 0
   Reserve = TRUE
   Titles <- TitleClasses
   Stack = 64
   WorkList = FALSE
-  DestSpellings = {"none"}
-  FollowRefs = FALSE
+  DestSpellings = {"none", "tree-direct", "kids-ref", "names-ref", "d-ref", "value-array-ref", "old-direct", "old-names-key", "old-refs"}
+  FollowRefs = TRUE
   IdLimits = {1000000}
   CheckedIds = FALSE
   Emit = TRUE
